@@ -1,4 +1,4 @@
-Require Import Base.Bytes Net.Frame Net.FrameProofs Net.Framed Net.FramedProofs Net.Adaptor Net.AdaptorSession Net.Concrete Gen.NetConsts.
+Require Import Base.Bytes Net.Frame Net.FrameProofs Net.Framed Net.FramedProofs Net.Async Net.NoHoldBack Net.Adaptor Net.AdaptorSession Net.Concrete Gen.NetConsts.
 Require Import Props.C08.
 Local Open Scope N_scope.
 Check c08_session_intact :
@@ -14,6 +14,21 @@ Check c08_session_intact :
     (length (concat dgs) + length es < fuel)%nat ->
     filter (keep packet) (session packet parse ver_of is_keepalive version m verify pong fuel [] (es ++ [Eof]))
       = concat (map (expected_frame packet parse ver_of is_keepalive version verify pong) (concat dgs)) ++ [Ret RDisconnected].
+Check c08_buffered_frame_is_served_without_more_input :
+  forall (packet : Type) (parse : bytes -> res packet) (ver_of : packet -> option N)
+         (is_keepalive : packet -> bool) (version : N) (m : mode) (verify : bool) (pong : bytes),
+  (forall b, parse b <> Panic) ->
+  forall f rest tr, wf_frame m f ->
+    read packet parse ver_of is_keepalive version m verify pong (f ++ rest) tr
+      = (expected_frame packet parse ver_of is_keepalive version verify pong f, rest, tr).
+Check c08_buffered_frame_is_served_without_more_input_async :
+  forall (packet : Type) (parse : bytes -> res packet) (ver_of : packet -> option N)
+         (is_keepalive : packet -> bool) (version : N) (m : mode) (verify : bool) (pong : bytes),
+  (forall b, parse b <> Panic) ->
+  forall f rest (s : fstate packet) rs ws, wf_frame m f ->
+    fbuf s = f ++ rest -> pend_w s = [] -> pend_p s = None ->
+    let '(o, s', rs', ws', w) := poll_from packet parse ver_of is_keepalive version m verify pong Top s rs ws in
+    rs' = rs /\ o <> PPending InRead.
 Check c08_adaptor_loses_nothing : forall eof sizes buf items,
   no_end items = true -> (eof = true -> no_empty items = true) ->
   let '(es, buf', items') := serve eof sizes buf items in
@@ -30,6 +45,8 @@ Check c08_write_is_one_datagram : forall frame, frame <> [] ->
   write_all [WAccept (pred (snd (awrite frame)))] frame = (frame, WOk, []).
 Check c08_model_state_is_the_struct : state_tied = true.
 Print Assumptions c08_session_intact.
+Print Assumptions c08_buffered_frame_is_served_without_more_input.
+Print Assumptions c08_buffered_frame_is_served_without_more_input_async.
 Print Assumptions c08_adaptor_loses_nothing.
 Print Assumptions c08_adaptor_drains.
 Print Assumptions c08_scratch_holds_max_datagram.
